@@ -430,6 +430,22 @@ def capture(ctx, crate, crs, tag):
         ctx.ob("capture-arms" + tag, b.key, "%s->%s" % (variant, field), ok, where_call(b, sites[0][0]) if sites else "",
                "Element::%s is stored into result.%s under its own id" % (variant, field) if ok else
                "no insert into result.%s keyed by the Element::%s payload (found keys: %s)" % (field, variant, [v for _, v, _ in sites]))
+    # ... on every path: once an element has been taken off the queue, the loop does not go on to the next element before the
+    # element is stored (a `continue` in a sub-case - seed C16-23: a solvable with Dependencies::Unknown - loses the element)
+    el_ = [c for c in cs if c.kind == "discr" and (c.adt or "").endswith("Element") and set(c.edges) >= set(ARM_TABLE)]
+    for c in el_[:1]:
+        lps = sorted([(len(body), h) for h, body, _ in b.loops() if c.bb in body])
+        if not lps:
+            continue
+        head = lps[0][1]
+        for variant, field in ARM_TABLE.items():
+            sites = {i for i, v, kd in found.get(field, []) if v == variant}
+            entry = c.target(variant)
+            if not sites or entry is None:
+                continue
+            skipped = head in b.reachable([entry], avoid=sites)
+            ctx.ob("capture-arms" + tag, b.key, "%s-stored-on-every-path" % variant, not skipped, b.loc(entry),
+                   "no path from the Element::%s arm back to the head of the work loop avoids result.%s.insert" % (variant, field))
     us = found.get("version_set_unions", [])
     ctx.ob("capture-arms" + tag, b.key, "Union->version_set_unions", any(v == "Union" for i, v, kd in us),
            where_call(b, us[0][0]) if us else "", "union members are stored under the union's own id")
